@@ -25,6 +25,14 @@ def t_values():
     ts += [F(3, 10), F(-3, 10), F(53, 10), F(-53, 10), F(102, 10),
            F(149, 10), F(151, 10), F(41, 2), F(-41, 2),
            F(10 ** 12) + F(1, 2), F(-10 ** 12) - F(1, 2)]
+    # a hair beside a tie (lost in any 53-bit intermediate) and quotients
+    # beyond 2**53
+    for eps in (F(1, 10 ** 17), F(1, 10 ** 25)):
+        ts += [F(1, 2) + eps, F(1, 2) - eps, F(5, 2) - eps, F(-3, 2) - eps,
+               F(-3, 2) + eps]
+    ts += [F(2 ** 53 + 1), F(2 ** 53 + 1) + F(1, 3),
+           F(27021597764222980, 3), F(-(2 ** 60) - 1) - F(1, 2),
+           F(2 ** 60 + 3) + F(1, 2), F(10 ** 30 + 1) + F(2, 3)]
     seen, out = set(), []
     for t in ts:
         if t not in seen:
